@@ -32,6 +32,9 @@ def rand_member(rng):
     """a finite real rrule and the int stream it yields; small grid so that members coincide"""
     from dateutil import rrule as R
     kind = rng.random()
+    if kind < 0.12:
+        return nested_member(rng)
+    kind = rng.random()
     if kind < 0.16:
         # calendar members: several occurrences per period, crossing a year boundary after a few occurrences, mostly UNCACHED —
         # live iterations over one such object only agree if every iteration has its own year/month masks
@@ -52,6 +55,42 @@ def rand_member(rng):
         p = rrlib.random_rule_params(rng, 12)
     r = tagged(R.rrule(cache=rng.random() < 0.3, **p), p)
     return r, ints(list(R.rrule(**p)))
+
+
+def nested_member(rng, mutable=False):
+    """an rruleset used as a MEMBER (through .rrule()/.exrule() of the outer set): its own rules, dates and EXCLUSIONS on the small
+    grid, so that its exclusions coincide with instants other members of the outer set produce — A u (B - X) is not (A u B) - X"""
+    from dateutil import rrule as R
+    inner = R.rruleset(cache=rng.random() < 0.3)
+    rec = {"cache": inner._cache is not None, "nested": []}
+    for _ in range(rng.randint(1, 2)):
+        p = dict(freq=rng.choice([R.HOURLY, R.DAILY]), dtstart=rrlib.to_dt(rng.choice([0, 0, 3600, 86400])), interval=rng.choice([1, 1, 2, 24]),
+                 count=rng.choice([2, 3, 5, 8]))
+        inner.rrule(R.rrule(**p)); rec["nested"].append(["rr", rrlib.params_record(p)])
+    for _ in range(rng.randint(0, 2)):
+        d = rng.choice(GRID); inner.rdate(rrlib.to_dt(d)); rec["nested"].append(["rd", d])
+    for _ in range(rng.randint(1, 3)):
+        d = rng.choice(GRID[:5] + [0, 3600]); inner.exdate(rrlib.to_dt(d)); rec["nested"].append(["xd", d])
+    if rng.random() < 0.4:
+        p = dict(freq=R.DAILY, dtstart=rrlib.to_dt(0), count=rng.choice([1, 2, 3]))
+        inner.exrule(R.rrule(**p)); rec["nested"].append(["xr", rrlib.params_record(p)])
+    inner._verif_params = rec
+    return inner, ints(list(inner))
+
+
+def rebuild_nested(rec):
+    from dateutil import rrule as R
+    inner = R.rruleset(cache=rec["cache"])
+    for k, v in rec["nested"]:
+        if k == "rr":
+            inner.rrule(R.rrule(**rrlib.params_rebuild(v)))
+        elif k == "xr":
+            inner.exrule(R.rrule(**rrlib.params_rebuild(v)))
+        elif k == "rd":
+            inner.rdate(rrlib.to_dt(v))
+        else:
+            inner.exdate(rrlib.to_dt(v))
+    return inner
 
 
 def tagged(rule, p):
@@ -402,6 +441,7 @@ def judge_history(ctx, pending, cache, ops, obs, want, after_stale, origin):
 def oracle(ctx):
     """Python set algebra on list(member) against every observation made on the real set object"""
     rng = ctx.subrng("oracle")
+    nested_sets(ctx, ctx.subrng("nested"))       # first: its failing inputs replay on the real nested objects
     n = ctx.budget(6000, 24000)
     pending = []          # failures inside a stale window: classified after asking the model
     nsamples = 0
@@ -478,6 +518,42 @@ def oracle(ctx):
                            "after_stale_resume": True, "model_reproduces": False, "origin": "stale-own"}, None)
 
 
+def nested_sets(ctx, rng):
+    """an rruleset as a MEMBER of another one: the outer set sees the inner set's instants as ONE member stream (the inner exclusions
+    apply to the inner set only: A u (B - X)), and — the outer set keeping a reference, not a copy — members added to the inner set
+    LATER show in the next iteration of an uncached outer set"""
+    from dateutil import rrule as R
+    for i in range(ctx.budget(60, 600)):
+        outer = R.rruleset(cache=False)
+        inner, _ = nested_member(rng)
+        others = set()
+        for _ in range(rng.randint(1, 3)):
+            d = rng.choice(GRID[:5] + [0, 3600]); outer.rdate(rrlib.to_dt(d)); others.add(d)
+        role = "rr" if i % 4 else "xr"
+        (outer.rrule if role == "rr" else outer.exrule)(inner)
+        steps = ["add-inner-as-" + role]
+        ok = True
+        for step in range(rng.randint(1, 3)):
+            I = set(ints(list(inner)))
+            want = sorted(others | I) if role == "rr" else sorted(others - I)
+            got = ints(list(outer))
+            ctx.case(("nested", i, step), nontrivial=True)
+            ctx.count("nested_set_observations")
+            if got != want:
+                ctx.violation("outer set (dates %s) with an inner set as %s member (inner yields %s), after %s: list(outer) = %s, set algebra gives %s"
+                              % (sorted(others), role, sorted(I), steps, got, want),
+                              {"cache": False, "history": "nested", "failing_op": step, "after_stale_resume": False, "model_reproduces": False,
+                               "origin": "nested", "inner": inner._verif_params, "role": role, "others": sorted(others), "steps": steps}, None)
+                ok = False
+                break
+            # mutate the INNER set after it was added
+            d = rng.choice(GRID)
+            if rng.random() < 0.5:
+                inner.rdate(rrlib.to_dt(d)); steps.append("inner.rd%d" % d); inner._verif_params["nested"].append(["rd", d])
+            else:
+                inner.exdate(rrlib.to_dt(d)); steps.append("inner.xd%d" % d); inner._verif_params["nested"].append(["xd", d])
+
+
 KNOWN = {}
 
 
@@ -497,6 +573,8 @@ def parse_history(text, members=None, uses=None):
             rec = members[idx] if members and idx is not None and idx < len(members) else None
             if idx is not None and idx in built:
                 m = built[idx]
+            elif rec and "nested" in rec:
+                m = rebuild_nested(rec)
             elif rec:
                 kw = {}
                 for k, v in rec["params"].items():
@@ -524,6 +602,18 @@ def parse_history(text, members=None, uses=None):
 
 def replay(ctx, payload):
     c = payload["violation"]["case"]
+    if c.get("origin") == "nested":
+        from dateutil import rrule as R
+        inner = rebuild_nested(c["inner"])
+        outer = R.rruleset(cache=False)
+        for d in c["others"]:
+            outer.rdate(rrlib.to_dt(d))
+        (outer.rrule if c["role"] == "rr" else outer.exrule)(inner)
+        I = set(ints(list(inner)))
+        want = sorted(set(c["others"]) | I) if c["role"] == "rr" else sorted(set(c["others"]) - I)
+        got = ints(list(outer))
+        print("replay nested: inner yields %s, outer dates %s, role %s: list(outer)=%s want=%s" % (sorted(I), c["others"], c["role"], got, want))
+        return got == want
     ops = parse_history(c["history"], c.get("members"), c.get("member_uses"))
     obs, want, _ = run_impl(c["cache"], ops)
     for o, w, op in zip(obs, want, ops):
